@@ -99,6 +99,9 @@ func (c Column) migrationUp(tbName, after string, ident int) []string {
 		strSql += c.definition(false)
 
 		if ident < 0 {
+			if ignoreFieldOrder {
+				return []string{fmt.Sprintf(sql.AlterTableAddColumnStm(), sql.EscapeSqlName(tbName), strSql)}
+			}
 			if after != "" {
 				return []string{fmt.Sprintf(sql.AlterTableAddColumnAfterStm(), sql.EscapeSqlName(tbName), strSql, sql.EscapeSqlName(after))}
 			}
